@@ -319,9 +319,9 @@ def fqStep (shift : UInt8) (withQ : Bool) (st : PSt) (c : UInt8) : Except Err PS
 /-- `FastqChunkParser(quality_shift, with_quality)(source, input)` on the whole text of a chunk -/
 def parseFastq (shift : UInt8) (withQ : Bool) (text : Bytes) : Except Err (List Rec) := do
   let st ← text.foldlM (fqStep shift withQ) ({} : PSt)
-  -- if len(sequences) > 0 { if state == 10 { _storeSequenceQuality(…) } }
+  -- if len(sequences) > 0 { if state == 10 { if with_quality { _storeSequenceQuality(…) } } }
   if st.out ≠ [] ∧ st.state = 10 then
-    let st ← storeQ shift st
+    let st ← if withQ then storeQ shift st else pure st
     pure st.out
   else pure st.out
 
@@ -361,5 +361,54 @@ def readFastqS (shift : UInt8) (text : Bytes) : Option Rec :=
     let r3 := ((r2.dropWhile (fun c => !isEol c)).dropWhile isEol)      -- quality line
     let ql := r3.takeWhile (fun c => !isEol c)
     some ⟨(splitTitle line).1, (splitTitle line).2, sq.map lower, some (ql.map (readQ shift))⟩
+
+/-! ## whole records: writer ∘ JSON library, chunk parser ∘ header parser -/
+
+/-- the JSON library as the code uses it (`obiutils.JsonMarshalByteBuffer` / `json.Unmarshal`), on annotation maps
+    split into (map without the key `definition`, value of `definition`) -/
+structure JsonLib (α : Type) where
+  empty : α
+  marshal : α × Option Bytes → Bytes
+  unmarshal : Bytes → Option (α × Option Bytes)
+
+/-- `json.Unmarshal([]byte(header)[start:stop], &annotations)` -/
+def JsonLib.lib {α : Type} (J : JsonLib α) (h : Bytes) : Lib α :=
+  fun s e => J.unmarshal ((h.drop s).take (e - s))
+
+structure Record (α : Type) where
+  id : Bytes
+  seq : Bytes
+  qual : Option Bytes
+  ann : α
+  defn : Option Bytes
+
+/-- `FormatFastSeqJsonHeader`: `if len(annotations) > 0 { marshal } else ""` -/
+def info {α : Type} [DecidableEq α] (J : JsonLib α) (ann : α) (defn : Option Bytes) : Bytes :=
+  if ann = J.empty ∧ defn = none then [] else J.marshal (ann, defn)
+
+/-- `FormatFastaBatch` on one record (`FormatFasta` + "\n") -/
+def writeFasta {α : Type} [DecidableEq α] (J : JsonLib α) (r : Record α) : Bytes :=
+  formatFasta r.id (info J r.ann r.defn) r.seq ++ [10]
+
+/-- `FormatFastqBatch` on one record -/
+def writeFastq {α : Type} [DecidableEq α] (J : JsonLib α) (shift : UInt8) (r : Record α) : Bytes :=
+  formatFastq shift r.id (info J r.ann r.defn) r.seq r.qual
+
+/-- `ParseFastSeqJsonHeader` on a record delivered by a chunk parser -/
+def readRec {α : Type} (J : JsonLib α) (rc : Rec) : Option (Record α) :=
+  (parseFastSeqJsonHeader J.empty (J.lib rc.defn) rc.defn).map
+    (fun p => ⟨rc.id, rc.seq, rc.qual, p.ann, p.defn⟩)
+
+/-- `FastaChunkParser` then `ParseFastSeqJsonHeader` on every record (`none` = Fatalf / panic) -/
+def readFasta {α : Type} (J : JsonLib α) (text : Bytes) : Option (List (Record α)) :=
+  match parseFasta text with
+  | .ok rs => rs.mapM (readRec J)
+  | .error _ => none
+
+/-- `FastqChunkParser(shift, true)` then `ParseFastSeqJsonHeader` on every record -/
+def readFastq {α : Type} (J : JsonLib α) (shift : UInt8) (text : Bytes) : Option (List (Record α)) :=
+  match parseFastq shift true text with
+  | .ok rs => rs.mapM (readRec J)
+  | .error _ => none
 
 end ObiVerif.Header
